@@ -19,7 +19,18 @@ def c07(prop, tier, verdict):
     cov['evaluations'] += hcov['hub_scenarios']
     cov['distinct_nontrivial'] += hcov['hub_distinct_nontrivial']
     cov['samples'].append({'hub_history': hcov['hub_sample']})
-    return 'model_checking', cov, SESS_ASSUME + ['session index: 3 sessions, 2 user ids, histories of at most 7 operations, one operation at a time (quiescent probes)']
+    # peer-level histories: ServeConn / accept loop / Dial, hook rejections, Close, cut, Peer.Close (spec/Peer.tla, spec/PPeer.tla)
+    def pcl(line, sc):
+        ops = [x['op'] + (':' + x['path'] + ':' + x['sv'] + '/' + x['cv'] if x['op'] == 'establish' else '') for x in sc.get('steps', [])]
+        return 'peer:%s:%s' % (line.get('ev'), '>'.join(ops[-3:]))
+    pcov, _ = eng_generic.run(prop, tier, verdict, 'Peer', 'peerlife', 'PPeer', pcl, consts={'MaxOps': '5', 'Slots': '{1, 2}'}, mc_cfg='Peer_mc.cfg', extra_cfg='VIEW view',
+                              quick_sample=700, min_count=3000, nontrivial=lambda sc: len(sc.get('steps', [])) > 1, label='peerlife')
+    cov['peer_model'] = pcov.get('model'); cov['peer_states'] = pcov.get('states'); cov['peer_scenarios'] = pcov['evaluations']
+    cov['traces_validated_against_impl'] += pcov['traces_validated_against_impl']
+    cov['evaluations'] += pcov['evaluations']
+    cov['distinct_nontrivial'] += pcov['distinct_nontrivial']
+    cov['samples'].append({'peer_history': pcov['samples'][-1]})
+    return 'model_checking', cov, SESS_ASSUME + ['peer level: 2 connections, histories of at most 5 operations over the three establishment paths (ServeConn, accept loop on an in-memory listener, Dial over loopback TCP to the accept loop), both hook verdicts on both ends, Close on either end, cut, Peer.Close on either peer, calls; quick tier replays a seeded sample of 700 of the exported transitions', 'session index: 3 sessions, 2 user ids, histories of at most 7 operations, one operation at a time (quiescent probes)']
 
 DISP_ASSUME = [
     'one message per scenario between two real peers over the in-memory connection; concurrent arrivals are covered by the sess engine',
